@@ -18,7 +18,8 @@ Inductive oev :=
   | OCollected (j : nat)      (* _on_done(job j) returned *)
   | OSubmitCall | OGatherIn | OGatherOut | OCloseIn | OCloseOut | OReturn
   | OAgain (b : option budget)
-  | OSent | OSent0.
+  | OSent | OSent0
+  | OCounts (d : nat).        (* evaluator.num_jobs_submitted - evaluator.num_jobs_gathered, read when close() / search() returned *)
 
 Definition infer (g : gst) (o : oev) : option (list ev) :=
   match o with
@@ -53,6 +54,9 @@ Definition infer (g : gst) (o : oev) : option (list ev) :=
   | OAgain b => Some [EAgain b]
   | OSent => Some [ESentinel]
   | OSent0 => Some [ESentinel0]
+  | OCounts d =>
+      (* the evaluator's own counters agree with the model: jobs without a row = submitted but not gathered *)
+      if Nat.eqb (length (jobs g) - length (rows g)) d then Some [] else None
   end.
 
 (* the part of an observed event that the per-job oracle of Check.v sees *)
